@@ -283,10 +283,12 @@ def main(tier):
         if only and only not in job["family"]: return
         job["id"] = len(jobs); jobs.append(job); judge[job["id"]] = how
     # ---- (1) every document of the token builder
-    leaves = ["null", "true", "n1", "s1"] if quick else ["null", "true", "false", "n1", "n2", "s1", "s2"]
-    keys = ["a", "0", "1", "01", "__proto__", "k1"] if quick else ["a", "0", "1", "10", "01", "__proto__", "length", "", "k1", "k2"]
+    # (thorough bounds are sized so that TLC's output stays below a few 10^5 documents: the first thorough configuration - 7 leaves, 10 keys,
+    # 5 tokens, 4 children - printed tens of millions of documents and the check spent an hour and 9 GB reading them)
+    leaves = ["null", "true", "n1", "s1"] if quick else ["null", "true", "false", "n1", "s1", "s2"]
+    keys = ["a", "0", "1", "01", "__proto__", "k1"] if quick else ["a", "0", "1", "10", "01", "__proto__", "length", "k1"]
     t0 = time.time()
-    res, docs = tlc_inputs("jsonmap_doc", cfg("doc", leaves, [], keys, maxtok=4 if quick else 5, depth=3, kids=3 if quick else 4, invs=("RoundTrip", "Idempotent")), timeout=3000)
+    res, docs = tlc_inputs("jsonmap_doc", cfg("doc", leaves, [], keys, maxtok=4, depth=3, kids=3 if quick else 4, invs=("RoundTrip", "Idempotent")), timeout=3000)
     c.add_tlc(res)
     log("JsonMap.tla document builder: %d documents, theorems RoundTrip/Idempotent hold (%d states, %.0fs)" % (len(docs), res.distinct, time.time() - t0))
     step = 1
@@ -306,7 +308,7 @@ def main(tier):
     jl = ["null", "n1", "s1", "undef", "fun", "nan", "nzero"] if quick else ["null", "true", "n1", "s1", "undef", "fun", "sym", "nan", "inf", "ninf", "nzero"]
     gk = ["a", "0", "k1"] if quick else ["a", "0", "1", "01", "k1"]
     t0 = time.time()
-    res, graphs = tlc_inputs("jsonmap_graph", cfg("graph", [], jl, gk, nc=2 if quick else 3, ent=3 if quick else 4, invs=("CycleIffRefused", "PruneStable")), timeout=6000)
+    res, graphs = tlc_inputs("jsonmap_graph", cfg("graph", [], jl, gk, nc=2 if quick else 3, ent=3, invs=("CycleIffRefused", "PruneStable")), timeout=6000)
     c.add_tlc(res)
     ncyc = sum(1 for g in graphs if g["out"]["a"] == "cycle-error")
     log("JsonMap.tla heap builder: %d value graphs (%d cyclic), theorems CycleIffRefused/PruneStable hold (%d states, %.0fs)" % (len(graphs), ncyc, res.distinct, time.time() - t0))
@@ -372,7 +374,7 @@ def main(tier):
     c.cov["key_order_differs"] = V.order_diffs
     c.cov["rule"] = ("exhaustive: every document of <= %d tokens (leaves %s, keys %s) and every value graph of the heap builder (NC=%d, <= %d entries, leaves %s); "
                      "sampled: number texts, seeded doubles and integers, every Unicode scalar value in chunks of %d as values and keys, random trees of depth <= 6, deep/wide extremes"
-                     % (4 if quick else 5, leaves, keys, 2 if quick else 3, 3 if quick else 4, jl, CH))
+                     % (4, leaves, keys, 2 if quick else 3, 3, jl, CH))
     c.assumptions += ["strings and numbers are opaque atoms in JsonMap.tla: TLC decides structure, omission, key canonicalisation and cycles; character- and digit-level fidelity is checked by the harness against an independent conforming parser (Python json with its extensions disabled), not by TLC",
                       "object key ORDER is not judged (the property speaks of nesting and array order); order differences are counted in the evidence",
                       "lone surrogates are outside the property (Unicode scalar values) and cannot be represented by the implementation's UTF-8 strings"]
